@@ -40,7 +40,7 @@ ONE = {
     # (the unrepresentable requests take cstl_array_alloc's early-return path)
     'A': ['aalloc X 3 4', 'aalloc X 0 0', 'aalloc X 9223372036854775807 4', 'aalloc X 18446744073709551615 1',
           'aalloc X 2305843009213693950 8', 'aset X 1 5 4', 'arelease X', 'adata X', 'aat X 0', 'aat X 7', 'areset X',
-          'aslice X 0 0 X', 'aunslice X X'],
+          'aslice X 0 0 X', 'aslice X 0 1 X', 'aslice X 1 2 X', 'aunslice X X'],
     # gcopy dst src: only the source is read (through the guard)
     'G': ['gget X', 'ggetc X', 'gswap X X', 'gcopy X X'],
 }
